@@ -142,10 +142,27 @@ func coRun(dest, src, via string) (got string) {
 		}
 		defer func() { conf.Coercers.Int = old }()
 	}
+	if opt == "globalf:plus1000" {
+		old := conf.Coercers.Float64
+		conf.Coercers.Float64 = func(d any) (any, error) {
+			v, err := old(d)
+			if err != nil {
+				return nil, err
+			}
+			return v.(float64) + 1000, nil
+		}
+		defer func() { conf.Coercers.Float64 = old }()
+	}
 	var sch z.ZogSchema
 	var newDest func() any
 	var show func(any) string
 	switch base {
+	case "int64":
+		sch, newDest, show = z.Int64(), func() any { return new(int64) }, func(p any) string { return fmt.Sprint(*p.(*int64)) }
+	case "int32":
+		sch, newDest, show = z.Int32(), func() any { return new(int32) }, func(p any) string { return fmt.Sprint(*p.(*int32)) }
+	case "float32":
+		sch, newDest, show = z.Float32(), func() any { return new(float32) }, func(p any) string { return strconv.FormatFloat(float64(*p.(*float32)), 'f', -1, 32) }
 	case "bool":
 		sch, newDest, show = z.Bool(), func() any { return new(bool) }, func(p any) string { return fmt.Sprint(*p.(*bool)) }
 	case "string":
@@ -224,6 +241,12 @@ func coRun(dest, src, via string) (got string) {
 			n, co = count(nil, s.Parse(data, d.(*int)))
 		case *z.NumberSchema[float64]:
 			n, co = count(nil, s.Parse(data, d.(*float64)))
+		case *z.NumberSchema[int64]:
+			n, co = count(nil, s.Parse(data, d.(*int64)))
+		case *z.NumberSchema[int32]:
+			n, co = count(nil, s.Parse(data, d.(*int32)))
+		case *z.NumberSchema[float32]:
+			n, co = count(nil, s.Parse(data, d.(*float32)))
 		case *z.TimeSchema:
 			n, co = count(nil, s.Parse(data, d.(*time.Time)))
 		case *z.SliceSchema:
@@ -247,6 +270,18 @@ func coField(sch z.ZogSchema, base string, data any, finish func(int, bool, stri
 		return finish(n, co, show(&d.V))
 	case base == "string":
 		var d struct{ V string }
+		n, co := count(s.Parse(in, &d), nil)
+		return finish(n, co, show(&d.V))
+	case base == "int64":
+		var d struct{ V int64 }
+		n, co := count(s.Parse(in, &d), nil)
+		return finish(n, co, show(&d.V))
+	case base == "int32":
+		var d struct{ V int32 }
+		n, co := count(s.Parse(in, &d), nil)
+		return finish(n, co, show(&d.V))
+	case base == "float32":
+		var d struct{ V float32 }
 		n, co := count(s.Parse(in, &d), nil)
 		return finish(n, co, show(&d.V))
 	case strings.HasPrefix(base, "int"):
